@@ -163,7 +163,9 @@ SERIALIZERS = ["ident", "str", "wrap", "neg"]
 
 # exception pool: names resolved in vf.excs
 EXC_EXCEPTION = ["ValueError", "KeyError", "RuntimeError", "UserError", "DeepUserError", "OSError", "FileNotFoundError",
-                 "ZeroDivisionError", "BadStr", "UnicodeErr", "StopIteration", "FalsyError", "EmptyErrors", "BadStrRaisesBase"]
+                 "ZeroDivisionError", "BadStr", "UnicodeErr", "StopIteration", "FalsyError", "EmptyErrors", "BadStrRaisesBase",
+                 "ExceptionGroup", "ChainedError", "NoArgsError", "NonStrArgs", "CtorArgs", "SlotsError", "LongTextError", "NestedError",
+                 "UnicodeDecodeError"]
 EXC_BASE = ["KeyboardInterrupt", "GeneratorExit", "SystemExit", "CancelledError", "UserBase", "BadStrBase"]
 
 
